@@ -96,14 +96,22 @@ def mixin_run(policy, mutant=False):
         return {'v': self.version}
     if mutant:
       def asdict_with_event(self):
+        import weakref
+        from vf import sched as _s2
         event = threading.Event()
         state = self._asdict()
-        with self._lock:
-          self._update_events.add(event)
+        lock = next(v for v in vars(self).values() if isinstance(v, _s2.CoopLock))
+        events = next(v for v in vars(self).values() if isinstance(v, weakref.WeakSet))
+        with lock:
+          events.add(event)
         return state, event
       Obj.asdict_with_event = asdict_with_event
     obj = Obj()
-    obj._lock.label = 'sub'
+    from vf import sched as _s
+    locks = [v for v in vars(obj).values() if isinstance(v, _s.CoopLock)]
+    if len(locks) != 1:
+      raise RuntimeError('harness: the mixin is expected to own exactly one lock (found %d)' % len(locks))
+    locks[0].label = 'sub'
     total = NU * CH
     keep = []
 
